@@ -1,5 +1,6 @@
 import Bptk.Proofs.PyFrag
 import Bptk.Proofs.PyDet
+import Bptk.Proofs.PyComplete
 /-!
 C02 — SD-DSL expressions keep the grouping of the Python expression that built them.
 
@@ -262,6 +263,9 @@ unit; and for every class of the C02 vocabulary that unit-wise value is the inte
 def C02_full (T : Table) : Prop :=
   (∀ e : E, E.ok T L e = true →
      Parses (render T e) (denote T e) ∧
+     -- (wave 3) … and the executable parser — the one validated against CPython's `ast.parse` on every run —
+     -- returns exactly that tree (completeness of the fuelled parser with the fuel `parse` uses)
+     parse (render T e) = some (denote T e) ∧
      ∀ (α : Type) (C : Carrier α), eval C (fun _ => C.name "MISSING") (denote T e) = value C T e) ∧
   (∀ t ∈ T, ∀ s, specPy t.cls = some s →
      ∀ (α : Type) (C : Carrier α) (ρ : Nat → α), eval C ρ (shapeOf t) = eval C ρ s) ∧
@@ -271,7 +275,8 @@ theorem C02_full_of_tableOK (T : Table) (hT : tableOK L T = true) (hS : specOK T
     (hV : vocabOK T = true) : C02_full T := by
   refine ⟨?_, ?_, hV⟩
   · intro e he
-    exact ⟨render_parses L (by decide) T hT e he, fun α C => eval_denote C T e⟩
+    exact ⟨render_parses L (by decide) T hT e he, parse_render_eq L (by decide) T hT e he,
+      fun α C => eval_denote C T e⟩
   · intro t ht s hs α C ρ
     unfold specOK at hS
     rw [List.all_eq_true] at hS
@@ -292,6 +297,19 @@ theorem C02_parse_unique (T : Table) (hT : tableOK L T = true) (e : E) (he : E.o
   intro p hp α C
   rw [render_parse_unique L (by decide) T hT e he p hp]
   exact eval_denote C T e
+
+/-- **Completeness corollary (wave 3)**: under the per-run obligation the executable parser SUCCEEDS on the
+emitted text of every tree and returns the tree with operands as units (`parse_complete`: the fuelled parser
+finds every derivation of the relation with fuel `2·length + 2 ≤ 4·length + 8`); with `parse_sound` the
+executable parser decides the relation (`parse_iff`). -/
+theorem C02_parse_complete (T : Table) (hT : tableOK L T = true) (e : E) (he : E.ok T L e = true) :
+    parse (render T e) = some (denote T e) ∧
+    (∀ (α : Type) (C : Carrier α), (parse (render T e)).map (eval C (fun _ => C.name "MISSING")) = some (value C T e)) := by
+  have h := parse_render_eq L (by decide) T hT e he
+  refine ⟨h, fun α C => ?_⟩
+  rw [h]; simp [eval_denote C T e]
+
+theorem C02_parse_decides (ts : List Tok) (e : Py) : parse ts = some e ↔ Parses ts e := parse_iff ts e
 
 /-! ### Negation witnesses for the bare-infix templates of the pinned tree (before the repair) -/
 
@@ -318,6 +336,8 @@ example : tableOK L demoTable = true ∧ specOK demoTable = true ∧
 
 #print axioms C02_full_of_tableOK
 #print axioms C02_parse_unique
+#print axioms C02_parse_complete
+#print axioms C02_parse_decides
 #print axioms C02_witness_bare_sub
 #print axioms render_parses
 #print axioms parse_print
